@@ -340,7 +340,8 @@ class Analysis:
         if isinstance(e, ast.Call):
             return self._call(fi, n, e, depth)
         if isinstance(e, (ast.ListComp, ast.GeneratorExp, ast.SetComp, ast.DictComp)):
-            return flat(self.comp_elem(fi, n, e, depth))
+            # an iterable is represented by the value of its elements (tuple structure kept)
+            return self.comp_elem(fi, n, e, depth)
         if isinstance(e, ast.Dict):
             out = BOT
             for k, v in zip(e.keys, e.values):
